@@ -133,6 +133,10 @@ def gen_plan(seed, tier):
       steps.append({"op": "move", "host": r.randrange(nhosts)})
     else:
       steps.append({"op": "reset", "sw": r.randint(1, nsw)})
+  r9 = Rng(mix(seed, "lldpdst"))
+  for st in steps:
+    if st["op"] == "frame" and st["kind"] == "lldp" and r9.chance(0.5):
+      st["lldp_dst"] = r9.pick(["host", "host", "bcast"])
   r8 = Rng(mix(seed, "tos"))
   for st in steps:
     # the IP type-of-service byte of the hosts' datagrams: DSCP values and
@@ -337,8 +341,7 @@ def _drive(sim, plan, known, hit):
             else:
               stale.append((i, t, dst, p, prior[-1], "never-learned"))
         hd = cfg.get("hold_down", 0)
-        if hd and exp and (dst[0] & 1 or dst not in learned[i]
-                           or (filtered and cfg.get("transparent"))):
+        if hd and exp and (dst[0] & 1 or dst not in learned[i]):
           # a flood: suppressed while the connection is younger than the
           # hold-down (the buffer must be released all the same)
           con = net.nexus.connections.get(i)
@@ -446,6 +449,14 @@ def _drive(sim, plan, known, hit):
       elif kind == "lldp":
         et = 0x88cc
         dst = b"\x01\x80\xc2\x00\x00\x0e"
+        # (the ethertype is what makes a frame LLDP, not where it is sent:
+        # some senders address it to a station, or to everybody)
+        if st.get("lldp_dst") == "host":
+          dst = macs[d]
+        elif st.get("lldp_dst") == "bcast":
+          dst = b"\xff" * 6
+        if st.get("lldp_dst"):
+          sim.probes["lldp_to_ordinary_address"] += 1
       elif kind == "stp":
         dst = b"\x01\x80\xc2\x00\x00" + bytes([tag[0] % 16])
       elif kind == "self":
